@@ -311,15 +311,15 @@ Definition resize_fill (n : nat) (v : vsrc) (s : st) : res st :=
 (** The value argument as the caller evaluates it: a[i] requires i < size() *)
 Definition own_ok (v : vsrc) (s : st) : bool := match v with Own i => i <? size s | Ext _ => true end.
 
-(** const T tmp(value); f(tmp); ~tmp  -- the repair proposed in patches/C26_alias_value.diff: when the value is one of the
+(** const T tmp(value); f(tmp); ~tmp  -- the isOwnElement repair (/repo commit 91dbee05): when the value is one of the
     array's own elements it is copied to a local object before any element is moved or the block is freed *)
 Definition with_tmp (i : nat) (f : vsrc -> st -> res st) (s : st) : res st :=
   x <- read i s ;;
   s1 <- f (Ext x) (mkst (cur s) (nw s) (size s) (gen s) (N.succ (nctor s)) (ndtor s)) ;;
   Ok (mkst (cur s1) (nw s1) (size s1) (gen s1) (nctor s1) (N.succ (ndtor s1))).
 
-(** the four operations taking a const T& as the source reads them: [guard = false] is Array.h as it is now,
-    [guard = true] is Array.h with the isOwnElement() repair *)
+(** the four operations taking a const T& as the source reads them: [guard = true] is Array.h as it is now (with the
+    isOwnElement() repair), [guard = false] is Array.h before commit 91dbee05 (kept for the regression witnesses) *)
 Definition push_back_g (guard : bool) (v : vsrc) (s : st) : res st :=
   if own_ok v s then
     match guard, v with
